@@ -180,7 +180,9 @@ def evaluate(res, valids):
         raise RuntimeError("harness error reported by s4_verif_rt: %r" % res.stderr[-500:])
     if res.rc not in (0, 1) or b"panicked at" in res.stderr:
         return [("crash", "exit status %s; stderr tail: %r" % (res.rc, res.stderr[-700:]))]
-    lines = res.stdout.split(b"\n")
+    # an accounting record is printed as "<fields>\n\0" (known finding F-C08b, checked by C08): that NUL is the first
+    # byte of whatever is printed next and is not a disturbance of the co-source
+    lines = [l.lstrip(b"\x00") for l in res.stdout.split(b"\n")]
     for s in valids:
         want = co_source_lines(s)
         pref = s.path.encode() + b":"
@@ -316,9 +318,9 @@ def run_case(seed, i, tier):
         prng = core.rng_for(seed, PROP, i, "plan", k)
         plan = core.random_plan(prng, len(scn.files), budget=3_000_000)
         plan.hashseed = rng.getrandbits(32)
-        res = core.execute(scn, plan)
+        res = core.execute(scn, plan, wall_cap=10.0)
         if res.timed_out:
-            res = core.execute(scn, plan, wall_cap=120.0)
+            res = core.execute(scn, plan, wall_cap=40.0)
         tr = res.trace
         cr.runs += 1
         cr.steps += tr.steps
